@@ -164,6 +164,7 @@ def make_pulse(spec):
 class World:
     def __init__(self, spec: dict):
         self.spec = copy.deepcopy(spec)
+        self.alias = {}
         self.name = spec.get("name", "w")
         self.device = make_device(spec)
         self.nq = spec.get("qubits", 2)
@@ -177,13 +178,38 @@ class World:
             self.qids = list(coords)
             self.nq = len(coords)
         else:
-            self.register = make_register(self.nq)
-            self.qids = list(REGISTERS[self.nq])
+            # "qid_alias": {"q0": 2, ...} renames the qubits (ops keep using the q<i> names; see xlate)
+            self.alias = dict(spec.get("qid_alias") or {})
+            assert not any(v in self.alias for v in self.alias.values()), "alias values must not be alias keys"
+            from pulser import Register
+
+            self.register = Register({self.alias.get(k, k): v for k, v in REGISTERS[self.nq].items()})
+            self.qids = [self.alias.get(k, k) for k in REGISTERS[self.nq]]
         self.prefix = [tuple(o) if not isinstance(o, tuple) else o for o in spec.get("prefix", [])]
         self.detmaps = {
-            "m1": {"q0": 1.0},
-            "m2": {"q0": 0.25, "q1": 0.75},
+            "m1": {self.q("q0"): 1.0},
+            "m2": {self.q("q0"): 0.25, self.q("q1"): 0.75},
         }
+
+    def q(self, x):
+        """Actual qubit id(s) for the op-language name(s) `x`."""
+        if isinstance(x, (list, tuple)):
+            return type(x)(self.alias.get(i, i) if isinstance(i, str) else i for i in x)
+        return self.alias.get(x, x) if isinstance(x, str) else x
+
+    def xlate(self, op):
+        """The op with qubit names replaced by the world's actual ids (identity without `qid_alias`)."""
+        if not self.alias:
+            return op
+        k = op[0]
+        op = list(op)
+        if k == "declare" and len(op) > 3:
+            op[3] = self.q(op[3])
+        elif k in ("target", "slm"):
+            op[1] = self.q(op[1])
+        elif k == "phase_shift":
+            op[2] = self.q(op[2])
+        return tuple(op)
 
     def detmap(self, key):
         return self.register.define_detuning_map(dict(self.detmaps[key]))
@@ -235,6 +261,7 @@ def _tl(x):
 
 def apply(seq, op, world: World):
     """Execute one op of the op language on a real Sequence. Returns the call's return value."""
+    op = world.xlate(op)
     k = op[0]
     if k == "declare":
         it = _tl(op[3]) if len(op) > 3 else None
